@@ -49,6 +49,10 @@ CLAIMED = {
    text="Conc.tla with scan worker (no cleanup) and editor (cleanup) on the SAME file: TLC checks RestoreAfterChange over all interleavings; simulated behaviours and both coarse orders are replayed on real threads under the scheduler, then every text is sent as one further change; the final state is compared with the single analysis of the buffer; the known scan-after-notification defect is matched only when the model predicts the exact observed state.",
    note="5 disk texts x 5 buffer texts; the scan's visit is the guarded verif_analyze_file_fresh hook.",
    technique="TLA+ interleaving model (TLC exhaustive) + scheduled real-thread replay"),
+ "C11": dict(level="exploration", ref="DESIGN.md section 4 C11",
+   text="Hostile.tla enumerates every string of <= 2 (quick) / 3 (thorough) character classes out of 27 in each of 20 sensitive slots and every (valid version, unparsable successor) stale-position history, and states the protocol obligations (every request answered, process alive, no library panic, scan indexes the other files); the library is probed at ~100 positions per document under catch_unwind; the real binary is driven over stdio with all 13 request kinds at the positions recorded for the valid version, past the end and at u32 extremes; hostile pyproject.toml / entry_points.txt / .pth contents must not stop the server, the scan or the CLI nor disable healthy files.",
+   note="Exploration-level: the specification cannot predict a panic; it supplies the systematic input and history space and the obligations. 'Very large' inputs only by a handful of sizes.",
+   technique="TLA+ enumerated input/history space + catch_unwind library probes + real binary with watchdog"),
  "C12": dict(level=MC, ref="DESIGN.md section 4 C12, Appendix C",
    text="Lock events of every public library entry point are traced through the instrumented DashMap under natural placement and all-keys-in-one-shard; a held-lock re-entrancy involving a writer on the same map is a violation; the observed nesting templates are model-checked (Locks.tla, reader-preferring RwLock, all schedules and placements) for deadlock; ImportWalk.tla proves termination (<>Done under weak fairness) of the memoised import recursion and scanner fixpoint on all graphs over 3 modules, and all 1024 graphs are run on the real code under a watchdog with the result compared to reachability; seeded random schedules of a notification against two request streams on real threads.",
    note="Handlers of the binary crate are covered through the library entry points they call; watchdog 600 s; a crash (stack overflow) of the harness is reported as a violation with the culprit case.",
